@@ -44,7 +44,7 @@ def clause_props(contract, kind, name):
     return props[:1] if props else []
 
 
-def run_group(ctx, prop, lean=True):
+def run_group(ctx, prop, lean=True, other_tiers=True):
     from pyvc import engine, solve, run as pyrun
     mods = _all_contract_modules()
     contracts, models = pyrun.load_contracts(mods)
@@ -82,6 +82,11 @@ def run_group(ctx, prop, lean=True):
         all_obs.extend(mine)
         p['functions'].append(fname)
     p['solver_s'] += solve.discharge(all_obs)
+    if ctx.tier == 'thorough' and all_obs:
+        cc = solve.cross_check(all_obs)
+        ctx.section('cvc5_cross_check', **cc)
+        if cc['disagree']:
+            raise RuntimeError('z3 and cvc5 disagree on obligations: {}'.format(cc['disagree'][:5]))
     for fname, (c, obs, exits) in per_func.items():
         failed_dec, failed_aux = [], []
         for ob in obs:
@@ -109,6 +114,8 @@ def run_group(ctx, prop, lean=True):
     if lean and todo:
         run_lean(ctx)
     # the other deductive tiers: effect contracts (frames / RNG typestate / exception escape) and UF-mode helper terms
+    if not other_tiers:
+        return per_func
     if prop in ('C07', 'C18', 'C19', 'C20'):
         from checks import proofs_effects
         proofs_effects.run_effects(ctx, prop)
